@@ -14,6 +14,33 @@ import z3
 Q = fractions.Fraction
 
 
+import threading
+
+
+def guarded_check(solver, seconds):
+    """solver.check() with a hard deadline: some z3 tactics ignore the 'timeout' parameter, so a
+    timer thread interrupts the context. An interrupted check answers unknown."""
+    done = []
+
+    def fire():
+        if not done:
+            try:
+                solver.ctx.interrupt()
+            except Exception:
+                pass
+    t = threading.Timer(seconds, fire)
+    t.daemon = True
+    t.start()
+    try:
+        r = solver.check()
+    except z3.Z3Exception:
+        r = z3.unknown
+    finally:
+        done.append(1)
+        t.cancel()
+    return r
+
+
 class Abort(BaseException):
     """The current path is infeasible (both outcomes of a decision are unsat). BaseException on
     purpose: the code under test catches Exception in places."""
@@ -411,16 +438,15 @@ def real_mod(x, m):
     cm = _const_value(me)
     if cm is None or cm <= 0:
         raise UnsupportedByShim("real mod by non-constant modulus")
-    _fresh_ctr[0] += 1
-    k = z3.Int("modk!%d" % _fresh_ctr[0])
     xe = lift(x)
     if _is_int(xe):
         xe = z3.ToReal(xe)
     if _is_int(me):
         me = z3.ToReal(me)
-    r = xe - z3.ToReal(k) * me
-    Ctx.cur.add_side(z3.And(r >= 0, r < me))
-    return SN(r)
+    inv = 1 / cm
+    q = xe * z3.RealVal(str(inv.numerator) + "/" + str(inv.denominator))
+    # floor via z3's to_int: x mod m = x - m * floor(x / m)   (exact; 0 <= result < m)
+    return SN(z3.simplify(xe - me * z3.ToReal(z3.ToInt(q))))
 
 
 def ite(c, a, b):
@@ -470,6 +496,7 @@ class Ctx:
     def __init__(self, trail, timeout_ms):
         self.solver = z3.Solver()
         self.solver.set("timeout", timeout_ms)
+        self.timeout_ms = timeout_ms
         self.trail = trail          # list of [choice, other_feasible]
         self.pos = 0
         self.pc = []
@@ -493,7 +520,7 @@ class Ctx:
         t0 = time.time()
         self.solver.push()
         self.solver.add(e)
-        r = self.solver.check()
+        r = guarded_check(self.solver, self.timeout_ms / 1000.0 + 5)
         self.solver.pop()
         STATS["solver_s"] += time.time() - t0
         if r == z3.unknown:
@@ -606,8 +633,10 @@ class Path:
         self.effects = ctx.effects
         self.decisions = [t[0] if len(t) == 2 else ("v", t[2]) for t in ctx.trail[:ctx.pos]]
 
-    def check(self, claim, axioms=(), timeout_ms=None):
-        """decide PC /\\ axioms /\\ not claim.  -> ('unsat'|'sat'|'unknown', model|None, nontrivial)"""
+    def check(self, claim, axioms=(), timeout_ms=None, prefer=()):
+        """decide PC /\\ axioms /\\ not claim.  -> ('unsat'|'sat'|'unknown', model|None, nontrivial)
+        prefer: optional extra constraints used only to pick a more robust counterexample model
+        (e.g. margins that keep a float replay away from ties); ignored if unsatisfiable with them."""
         c = lift(claim)
         neg = z3.simplify(z3.Not(c))
         if z3.is_false(neg):
@@ -621,8 +650,13 @@ class Path:
         for a in axioms:
             s.add(a)
         s.add(neg)
-        r = s.check()
+        r = guarded_check(s, (timeout_ms or self.ctx.timeout_ms) / 1000.0 + 5)
         m = s.model() if r == z3.sat else None
+        if r == z3.sat and prefer:
+            for p_ in prefer:
+                s.add(p_)
+            if guarded_check(s, 20) == z3.sat:
+                m = s.model()
         s.pop()
         STATS["solver_s"] += time.time() - t0
         return str(r), m, True
